@@ -17,7 +17,7 @@ func init() {
 		Meta: report.Meta{
 			Property: "C11",
 			Rule: "every jump graph over 2-3 nodes whose bodies are drawn from {status line printing visited/visited_count of every node and of an unknown name, jump by name, jump by expression (also one reading the count of the node being left, and one naming an unknown node), " +
-				"jump inside an option body / if body, option group with a non-jumping branch}, every assignment of tracking in {absent, never, always}, every path up to the jump horizon; after every step Snapshot().VisitedNodes and the rendered counts are compared with model counters; " +
+				"jump inside an option body / if body, option group with a non-jumping branch}, plus a snapshot / restore family (RS: every save point x every receiving runner state x every continuation on scripts mixing tracked and never-tracked nodes, see C07), every assignment of tracking in {absent, never, always}, every path up to the jump horizon; after every step Snapshot().VisitedNodes and the rendered counts are compared with model counters; " +
 				"non-trivial = path with at least one jump",
 			StatesMean:  "(program, trace prefix) pairs; transitions = real Next calls compared with the model",
 			Assumptions: []string{"small-scope hypothesis", "canonical layout", "the count of a node changes when the jump is performed (after its target expression has been evaluated and found to name a node)"},
@@ -74,6 +74,8 @@ func runC11(ctx *report.Ctx) {
 	maxJumps := report.Pick(ctx, 5, 7)
 	wo := yc.WalkOpts{MaxSteps: 30, MaxJumps: maxJumps, CompareStore: false, CompareLog: false, StrictErrors: true, Step: visitsStep}
 	ctx.Bound("jumps_per_path", maxJumps)
+	// restore family: counts are unaffected by anything but jumps and restores
+	restoreExplore(ctx, "RS", c11RestoreScripts(), &yc.HostSpec{Vars: map[string]yc.Value{"gold": yc.Num(1)}}, report.Pick(ctx, c07Bounds{pre: 4, mid: 1, recv: 3, cont: 3}, c07Bounds{pre: 6, mid: 2, recv: 4, cont: 5}))
 	trackings := []string{"", "never", "always"}
 	nodeCounts := report.Pick(ctx, []int{2, 3}, []int{2, 3})
 	for _, nn := range nodeCounts {
@@ -120,6 +122,24 @@ func runC11(ctx *report.Ctx) {
 			}
 			walkProgram(ctx, c, fmt.Sprintf("G%d", nn), p, nil, wo, nil)
 		})
+	}
+}
+
+// c11RestoreScripts: visit counting across restores (tracked / never tracked nodes on both sides
+// of the restore, jump by an expression that reads the count of the node being left).
+func c11RestoreScripts() []*yc.Program {
+	names := []string{"N0", "N1", "N2"}
+	return []*yc.Program{
+		{Nodes: []*yc.Node{
+			{Title: "N0", Body: []*yc.Stmt{statusLine(names), yc.Jump("N1")}},
+			{Title: "N1", Tracking: "never", Body: []*yc.Stmt{statusLine(names), yc.Options(&yc.Option{Line: yc.TextLine("back"), Body: []*yc.Stmt{yc.Jump("N0")}}, &yc.Option{Line: yc.TextLine("on"), Body: []*yc.Stmt{yc.Jump("N2")}})}},
+			{Title: "N2", Tracking: "always", Body: []*yc.Stmt{statusLine(names), yc.Jump("N1")}},
+		}},
+		{Nodes: []*yc.Node{
+			{Title: "N0", Tracking: "never", Body: []*yc.Stmt{statusLine(names), yc.Jump("N1")}},
+			{Title: "N1", Body: []*yc.Stmt{statusLine(names), yc.JumpE(yc.EBinary("+", yc.EString("N"), yc.ECallOf("string", yc.EBinary("%", yc.ECallOf("visited_count", yc.EString("N1")), yc.ENumber(3)))))}},
+			{Title: "N2", Body: []*yc.Stmt{statusLine(names), yc.Jump("N0")}},
+		}},
 	}
 }
 
